@@ -408,6 +408,27 @@ func runC19(c *Ctx) {
 				why = fmt.Sprintf("Encode must reserve HeaderLen+len(frame), write len(frame) as the prefix and claim HeaderLen+len(frame) (prefix=%v claim=%v reserved=%v)", prefix, ret, reserved)
 			}
 			c.check(okEnc, enc, "encoder", enc.Pos(), "prefix = len(frame), claim = HeaderLen+len(frame), reserved first", why)
+			// the encoder refuses exactly what the decoder would refuse: payloads longer than the limit, not the limit itself
+			{
+				okLimit, nRefuse := true, 0
+				for _, r := range returnsOf(enc) {
+					if isNil(r.Results[0]) {
+						continue
+					}
+					for _, l := range guardsOf(r.Block()) {
+						op, x, y, isCmp := l.cmp()
+						if !isCmp || !lenOfParam(resolveCell(stripConv(x)), enc, 1) {
+							continue
+						}
+						nRefuse++
+						k, isK := constInt(y)
+						if !isK || !((op == token.GTR && k == maxLen) || (op == token.GEQ && k == maxLen+1)) {
+							okLimit = false
+						}
+					}
+				}
+				c.check(okLimit && nRefuse > 0, enc, "encoder limit", enc.Pos(), "refuses len(frame) > MaxPayloadLength only", "Encode refuses payloads under another condition than len(frame) > MaxPayloadLength: an item of exactly the maximum length cannot be sent although the decoder accepts it (or one above the limit is sent and the peer's decoder rejects it)")
+			}
 			// the Encoder contract (codec.go): the item must be committed, because the connection writes the read area of dst
 			committed := false
 			for _, cc := range callsToFn(enc, bb("Commit")) {
